@@ -45,8 +45,14 @@ impl<F: Future> Future for HostScoped<F> {
 
 impl<F> Drop for HostScoped<F> {
     fn drop(&mut self) {
-        if self.inner.is_some() && net_installed() {
-            turmoil_net::set_current(self.id);
+        if self.inner.is_some() {
+            if net_installed() {
+                turmoil_net::set_current(self.id);
+            } else {
+                // Net already gone (unwinding): sockets cannot close
+                // themselves any more; leak instead of panicking in drop.
+                std::mem::forget(self.inner.take());
+            }
         }
         self.inner = None;
     }
@@ -80,8 +86,12 @@ impl<T> Scoped<T> {
 
 impl<T> Drop for Scoped<T> {
     fn drop(&mut self) {
-        if self.inner.is_some() && net_installed() {
-            turmoil_net::set_current(self.host);
+        if self.inner.is_some() {
+            if net_installed() {
+                turmoil_net::set_current(self.host);
+            } else {
+                std::mem::forget(self.inner.take());
+            }
         }
         self.inner = None;
     }
@@ -222,7 +232,7 @@ impl World {
     /// re-raised here with the original message/location.
     pub fn settle(&mut self) {
         let local = &self.local;
-        self.rt.block_on(local.run_until(tokio::time::sleep(TICK)));
+        self.rt.block_on(async { local.run_until(tokio::time::sleep(TICK)).await });
         let mut i = 0;
         while i < self.tasks.len() {
             if self.tasks[i].is_finished() {
